@@ -139,7 +139,7 @@ F32Cases ==
      s \in Seeds, n \in MedSizes, shr \in BOOLEAN}
 
 All ==
-  (IF "csvc" \in Fams THEN CsvcSmall \cup CsvcMed ELSE {}) \cup
+  (IF "csvc" \in Fams THEN CsvcSmall \cup {k \in CsvcMed : Npos(k.inp.y) > 0 /\ Nneg(k.inp.y) > 0} ELSE {}) \cup
   (IF "nusvc" \in Fams
      THEN {k \in NusvcSmall : NuFeasible(k.inp.y, k.inp.nu) /\ Separable(k.inp.x, k.inp.y)}
           \cup {k \in NusvcMed : NuFeasible(k.inp.y, k.inp.nu)}
@@ -147,7 +147,7 @@ All ==
   (IF "oneclass" \in Fams THEN OneclassSmall \cup OneclassMed ELSE {}) \cup
   (IF "esvr" \in Fams THEN EsvrSmall \cup EsvrMed ELSE {}) \cup
   (IF "nusvr" \in Fams THEN NusvrSmall \cup NusvrMed ELSE {}) \cup
-  (IF "f32" \in Fams THEN F32Cases ELSE {})
+  (IF "f32" \in Fams THEN {k \in F32Cases : k.kind # "csvc" \/ (Npos(k.inp.y) > 0 /\ Nneg(k.inp.y) > 0)} ELSE {})
 
 Init == case \in All
 Next == UNCHANGED case
